@@ -74,6 +74,28 @@ def verbAsmLR (e : Env) (f : List (List Nat)) : List Nat :=
   | some is => str "ok " ++ renderInstrs is
   | none => str "parse-error"
 
+/-- pretty <text>: the model of the CLI pretty printer applied to the model's parse of the text -/
+def verbPretty (e : Env) (f : List (List Nat)) : List Nat :=
+  let text := f.headD []
+  match Sqf.parse e.real text with
+  | some ss => if (Sqf.Pretty.prettyFile ss).isEmpty then str "empty" else str "ok " ++ Sqf.Pretty.prettyFile ss
+  | none => str "parse-error"
+
+/-- prettytie <text> (model only): do the bytes the pretty-printer model writes lex (tokenizer + yylex classification
+    of the model) to the token sequence of its token-level view, and does the parser read them back as the tree? -/
+def verbPrettyTie (e : Env) (f : List (List Nat)) : List Nat :=
+  let text := f.headD []
+  match Sqf.parse e.real text with
+  | none => str "parse-error"
+  | some ss =>
+    let tk : Name → PTok := fun n => classify e.real (isAlpha (n.headD 0) || n.headD 0 == 95) n
+    let prog := Sqf.Pretty.prettyProgram tk (Sqf.Pretty.normList ss)
+    let toks := ptoks e.real (Sqf.Pretty.prettyFile ss)
+    str "tokens=" ++ (if toks == prog.toks then str "agree" else str "differ") ++
+    str " readback=" ++ (match parseToks toks with
+      | some ss' => if (ss'.map (fun a => renderInstrs (Sqf.compile a))) == (ss.map (fun a => renderInstrs (Sqf.compile a))) then str "same" else str "other"
+      | none => str "none")
+
 def renderTok (t : Token) : List Nat :=
   natStr t.kind.toNat ++ str "@" ++ natStr t.line ++ str ":" ++ natStr t.col ++ str ":" ++ natStr t.off ++ str "+" ++ natStr t.text.length
 
@@ -381,6 +403,43 @@ def verbCtl3 (e : Env) (f : List (List Nat)) : List Nat :=
     str "ctl=" ++ joinWith [44] (o.2.2.map ctlResName) ++ str " exec=" ++ ctlResName o.2.1 ++ str " state=" ++ Sqf.VM.stateName o.1.state ++
       str " contexts=" ++ natStr (match o.1.ctx with | some _ => 1 | none => 0) ++ str " | tr=" ++ tr
 
+/-- ctl4 <program> <outer actions> <k> <injected actions> <layout>: a history of actions; right before the (k+1)-th
+    instruction they execute altogether the injected actions are issued -/
+def verbCtl4 (e : Env) (f : List (List Nat)) : List Nat :=
+  let text := f.headD []
+  let actions := ((f[1]?).getD []).filterMap ctlAction
+  let k := natOfBytes ((f[2]?).getD [])
+  let acts := ((f[3]?).getD []).filterMap ctlAction
+  let layout := match f[4]? with
+    | some l => if l.isEmpty then [] else (splitOn 44 l).map natOfBytes
+    | none => []
+  match assemble e.real text with
+  | none => str "parse-error"
+  | some prog =>
+    let r0 : Sqf.Ctl.Rt := { ctx := some { frames := [{ code := prog }], id := 1 }, m := { parse := assemble e.real } }
+    let lineOf := ctlLineOf layout
+    let req := Sqf.Ctl.requestsExit acts
+    -- state: runtime, countdown, output, index of the outer action, where the controller had its turn, still modelled
+    let st := actions.foldl (fun (acc : Sqf.Ctl.Rt × Option Nat × List Nat × Nat × Option Nat × Bool) act =>
+      let (r, inj, out, idx, met, good) := acc
+      if !good then acc
+      else match Sqf.Ctl.execI lineOf req r inj 100000 act with
+        | none => (r, inj, out, idx, met, false)
+        | some o =>
+          (o.1.1, o.2.1, out ++ str " ; " ++ ctlResName o.1.2 ++ str ":" ++ Sqf.VM.stateName o.1.1.state ++ str ":" ++ ctlPosition layout o.1.1,
+           idx + 1, (if o.2.2 then some idx else met), true))
+      (r0, some k, str "init:empty:" ++ ctlPosition layout r0, 0, none, true)
+    let (r, _, out, _, met, good) := st
+    if !good then str "nomodel"
+    else
+      let tr := match Sqf.VM.varsGet (Sqf.VM.nsGet r.m.nss 0) (str "tr") with
+        | some v => Sqf.VM.renderV r.m v
+        | none => str "undef"
+      out ++ str " | tr=" ++ tr ++ str " | ctl=" ++
+        (match met with
+         | some i => joinWith [44] (acts.map (fun a => ctlResName (Sqf.Ctl.whileRunning a))) ++ str "@" ++ natStr i
+         | none => str "@-")
+
 /-! ### pbo -/
 
 def hexOf (bs : List Nat) : List Nat :=
@@ -552,6 +611,9 @@ def handle (e : Env) (verb : String) (f : List (List Nat)) : List Nat :=
   else if verb == "api" then verbApi e f
   else if verb == "ctl" then verbCtl e f
   else if verb == "ctl3" then verbCtl3 e f
+  else if verb == "ctl4" then verbCtl4 e f
+  else if verb == "pretty" then verbPretty e f
+  else if verb == "prettytie" then verbPrettyTie e f
   else if verb == "pbo" then verbPbo f
   else if verb == "vfs" then verbVfs f
   else if verb == "pp" then verbPp f
